@@ -37,7 +37,7 @@ fn run(a: &vhcore::Args) -> i32 {
             }
             if let Some((kind, msg)) = diff_builds(y, x) {
                 let key = match case.known_class {
-                    Some(k) => format!("C07|{k}|{on}|{kind}"),
+                    Some(k) => format!("C07|{k}"),
                     None => format!("C07|{}|{on}|{kind}", shape_of(case)),
                 };
                 let mut rj = vh_comp::replay::case_replay_json(case, on, on == "release");
